@@ -310,6 +310,18 @@ impl GrammarBuilder {
                             match assignment {
                                 PlainAssignment(mut assign) | BoolAssignment(mut assign) => {
                                     self.check_identifier(&assign.name)?;
+                                    if matches!(&assign.gsymref.gsymbol,
+                                        Some(GrammarSymbol::Name(name)) if name.as_ref() == "EMPTY")
+                                    {
+                                        err!(
+                                            format!(
+                                                "EMPTY can't be assigned to '{}'.",
+                                                assign.name
+                                            ),
+                                            Some(self.file.clone()),
+                                            assign.name.span
+                                        )?
+                                    }
                                     // Assignment names are the fields of
                                     // the production's AST type.
                                     if !assign_names.insert(assign.name.as_ref().clone()) {
